@@ -132,6 +132,8 @@ class DepDomain(Domain):
         self.store_ctrl = []           # (node, frozenset(ctrl)) at each `self.<memo>[k] = v`
         self.cached = {}               # id(value) -> memo name, for values stored in a memo
         self.inplace = []              # (node, memo name) in-place operations on a value held by a memo
+        self.derived = {}              # derived atom -> the atom it is a many-to-one function of
+        self.memo_ctrl = {}            # memo name -> deps of the undecided tests taken before a store into it
 
     def atom(self, name):
         return Dep({name}, {name})
@@ -196,6 +198,8 @@ class DepDomain(Domain):
             return Dep(args[0].deps, args[0].inj)
         if dotted in ('builtins.tuple', 'builtins.list') and args and isinstance(args[0], Tup):
             return None
+        if dotted == 'builtins.len' and args and isinstance(args[0], MemoDict):
+            return Dep()          # how full the memo is (eviction housekeeping): not an input of what is stored
         if dotted == 'builtins.len' and args and isinstance(args[0], (Tup, DictV)):
             return None
         if dotted in ('builtins.isinstance', 'builtins.hasattr', 'builtins.callable') and args:
@@ -204,6 +208,13 @@ class DepDomain(Domain):
             return self._union(args[0])
         if dotted in ('builtins.print', 'warnings.warn'):
             return Const(None)
+        if len(vals) == 1 and isinstance(vals[0], Dep) and len(vals[0].deps) == 1 and vals[0].inj == vals[0].deps:
+            # a many-to-one function of one atom (abs, round, int, len ...): a derived atom of its own.  A key holding it determines
+            # it (and whatever is computed from it), but not the atom it was derived from
+            (a,) = vals[0].deps
+            d = '%s(%s)' % (dotted.rsplit('.', 1)[-1], a if isinstance(a, str) else '%s[%d]' % a)
+            self.derived[d] = a
+            return Dep({d}, {d})
         return self._union(*vals)
 
     def getattr(self, v, name, node):
@@ -290,6 +301,7 @@ class MemoDict(DictV):
 
     def set(self, k, v):
         DictV.set(self, k, v)
+        self._dom.memo_ctrl.setdefault(self._name, set()).update(self._dom.ctrl)      # the tests that led to this store
         for x in ([v] if not isinstance(v, Tup) else list(v.items)):
             if isinstance(x, Dep):
                 self._dom.cached[id(x)] = self._name
